@@ -1,6 +1,8 @@
 """C04 - cache transparency (only clauses whose violation lets a hit differ from a miss)."""
 from . import cachefam as F
 
+from . import extra as X
+
 EXPLANATION = ("Necessary conditions of transparency decided on Context.evaluate and the memory back-end: a bypassed "
                "read implies a bypassed write (no polluted entry), the filing key denotes the evaluated query (canonical or as-typed text of it), the "
                "bypass decision covers the whole evaluation tree, and the in-memory cache is copy-in/copy-out (the "
@@ -16,3 +18,5 @@ def run(chk):
     F.rule_memory_copy(chk, chk.repo, "C04.4")
     F.rule_backend_refuses_errors(chk, chk.repo, "C04.5")
     F.rule_data_presence_witness(chk, chk.repo, "C04.6")
+    X.rule_codec_pairs(chk, "C04.7")
+    X.rule_metadata_keyed_by_own_query(chk, "C04.8")
